@@ -65,7 +65,7 @@ func suiteCollection(r *Rng, n int, thorough bool, o *Out) {
 		tc := typ.Copy()
 		sc.SetType(&tc)
 		var rows []specRow
-		cur := typ.Copy() // the oracle's idea of the current type
+		cur := copyTypeIndep(typ) // the oracle's idea of the current type (its own copy, not Type.Copy's)
 		o.emit(lst("col", "reset", sxType(typ)), colDump(sc), "ok")
 		// a scripted beginning in an eighth of the cases: the same ID added twice (or three
 		// times), removed, looked up, removed and looked up again - the collection is the
@@ -98,13 +98,13 @@ func suiteCollection(r *Rng, n int, thorough bool, o *Out) {
 			case k < 4: // Add
 				rt := genSmallType("t")
 				if r.chance(1, 3) {
-					rt = cur.Copy() // the collection's own type
+					rt = copyTypeIndep(cur) // the collection's own type
 				}
 				vals := genFieldVals(r, rt)
 				var res jsonapi.Resource
 				if sc.Type != nil && r.chance(1, 5) {
 					// a soft resource that shares the collection's own *Type object
-					rt = cur.Copy()
+					rt = copyTypeIndep(cur)
 					vals = genFieldVals(r, rt)
 					sr := &jsonapi.SoftResource{}
 					sr.SetType(sc.Type)
@@ -159,18 +159,30 @@ func suiteCollection(r *Rng, n int, thorough bool, o *Out) {
 						}
 					}
 				}
+				// what the argument holds is what the generator wrote into it (vals), not what
+				// the argument's own Get says; only the deliberately odd getter of dblPtrRes
+				// is followed (on the written value)
+				given := func(nm string) any {
+					v := cloneVal(vals[nm])
+					if d, ok := res.(dblPtrRes); ok && nm == d.name && v != nil && reflect.ValueOf(v).Kind() == reflect.Ptr {
+						pp := reflect.New(reflect.TypeOf(v))
+						pp.Elem().Set(reflect.ValueOf(v))
+						return pp.Interface()
+					}
+					return v
+				}
 				for _, an := range sortedKeys(rt.Attrs) {
 					if free(an) {
 						cur.Attrs[an] = rt.Attrs[an]
 						o.stat("add.extends-type")
 					}
-					keep(an, res.Get(an))
+					keep(an, given(an))
 				}
 				for _, rn := range sortedKeys(rt.Rels) {
 					if free(rn) {
 						cur.Rels[rn] = rt.Rels[rn]
 					}
-					keep(rn, res.Get(rn))
+					keep(rn, given(rn))
 				}
 				rows = append(rows, row)
 				// a later Set on the argument must not alter the snapshot
@@ -202,7 +214,7 @@ func suiteCollection(r *Rng, n int, thorough bool, o *Out) {
 				if (err == nil) != (!isA && !isR) {
 					pv = "FAIL:AddAttr result"
 				}
-				if err == nil {
+				if !isA && !isR {
 					cur.Attrs[a.Name] = a
 				}
 			case k == 6:
@@ -210,7 +222,12 @@ func suiteCollection(r *Rng, n int, thorough bool, o *Out) {
 				op = lst("col", "addrel", sxRel(rel))
 				var err error
 				panicked, _ = guard(func() { err = sc.AddRel(rel) })
-				if err == nil {
+				// (the result is judged against the oracle's type, as AddAttr's is; the
+				// oracle's type then follows the expectation, not the call's answer)
+				if (err == nil) != free2(cur, rel.FromName) {
+					pv = "FAIL:AddRel result"
+				}
+				if free2(cur, rel.FromName) {
 					cur.Rels[rel.FromName] = rel
 				}
 			case k == 7:
@@ -240,7 +257,7 @@ func suiteCollection(r *Rng, n int, thorough bool, o *Out) {
 				op = lst("col", "settype", sxType(nt))
 				t2 := nt.Copy()
 				panicked, _ = guard(func() { sc.SetType(&t2) })
-				cur = nt.Copy()
+				cur = copyTypeIndep(nt)
 				for i := range rows {
 					for f := range rows[i].vals {
 						_, isA := cur.Attrs[f]
@@ -329,8 +346,8 @@ func colVerdict(sc *jsonapi.SoftCollection, rows []specRow, cur jsonapi.Type) st
 		return fmt.Sprintf("FAIL:Len is %d, the list has %d", sc.Len(), len(rows))
 	}
 	ct := sc.GetType()
-	if strings.Join(ct.Fields(), ",") != strings.Join(cur.Fields(), ",") {
-		return fmt.Sprintf("FAIL:collection fields %v, expected %v", ct.Fields(), cur.Fields())
+	if strings.Join(ct.Fields(), ",") != strings.Join(fieldsIndep(cur), ",") {
+		return fmt.Sprintf("FAIL:collection fields %v, expected %v", ct.Fields(), fieldsIndep(cur))
 	}
 	for i, row := range rows {
 		res := sc.At(i)
@@ -338,14 +355,14 @@ func colVerdict(sc *jsonapi.SoftCollection, rows []specRow, cur jsonapi.Type) st
 			return fmt.Sprintf("FAIL:element %d has id %v, expected %s", i, res.Get("id"), row.id)
 		}
 		rt := res.GetType()
-		if strings.Join(rt.Fields(), ",") != strings.Join(cur.Fields(), ",") {
-			return fmt.Sprintf("FAIL:element %d exposes fields %v, the collection has %v", i, rt.Fields(), cur.Fields())
+		if strings.Join(rt.Fields(), ",") != strings.Join(fieldsIndep(cur), ",") {
+			return fmt.Sprintf("FAIL:element %d exposes fields %v, the collection has %v", i, rt.Fields(), fieldsIndep(cur))
 		}
-		for _, f := range cur.Fields() {
+		for _, f := range fieldsIndep(cur) {
 			want, ok := row.vals[f]
 			if !ok {
 				if a, isA := cur.Attrs[f]; isA {
-					want = canonSx(jsonapi.GetZeroValue(a.Type, a.Nullable))
+					want = canonSx(zeroIndep(a.Type, a.Nullable))
 				} else if cur.Rels[f].ToOne {
 					want = sxVal("")
 				} else {
